@@ -1,4 +1,5 @@
-"""C19 finding: an `ordered_subpage` entry may name a file outside the page directory (any name not
+"""C19 (repaired defect, kept as a regression demonstration; exit code 1 = the defect is back):
+an `ordered_subpage` entry may name a file outside the page directory (any name not
 starting with '.', e.g. sub/../../../note.md).  The page's location becomes a path with '..'
 (ford/pagetree.py PageNode: location = relpath(path.parent, topdir)) and PagetreePage.outfile =
 <output_dir>/page/<location>/<name>.html lands outside the output directory.
@@ -7,7 +8,7 @@ Layout:  <tmp>/note.md                     a markdown file two levels above the 
          <tmp>/proj/pages/index.md         with  ordered_subpage: sub/../../../note.md
          <tmp>/proj/pages/sub/index.md
          <tmp>/proj/proj.md                output_dir: ./doc
-Observed: <tmp>/proj/note.html is written (outside <tmp>/proj/doc).
+Observed before the repair: <tmp>/proj/note.html is written (outside <tmp>/proj/doc).
 Expected: nothing outside <tmp>/proj/doc changes.
 Exit code 1 while the defect is present.  Run with PYTHONPATH=/repo."""
 import os, pathlib, shutil, subprocess, sys, tempfile
